@@ -215,6 +215,30 @@ pub fn message_with_final_accumulator(
     nprefix: usize,
     last_len: usize,
 ) -> Option<Vec<u8>> {
+    message_with_final_accumulator_fe(rng, key, target_fe(off), nprefix, last_len)
+}
+
+/// A message for `key` whose Poly1305 tag is exactly `tag`: the final accumulator is solved to (tag - s) mod 2^128
+/// (a value below p), same shape parameters as `message_with_final_accumulator`.  In XSalsa20-Poly1305 the one-time
+/// key is the head of the keystream, so this gives a ciphertext body (and thus a box) with a chosen tag.
+pub fn message_with_tag(rng: &mut Rng, key: &[u8; 32], tag: &[u8; 16], nprefix: usize, last_len: usize) -> Option<Vec<u8>> {
+    let s = u128::from_le_bytes(key[16..].try_into().unwrap());
+    let h = u128::from_le_bytes(*tag).wrapping_sub(s);
+    let m = message_with_final_accumulator_fe(rng, key, Fe::from_u128(h), nprefix, last_len)?;
+    if so::onetimeauth(&m, key) != *tag {
+        panic!("{} polymath: constructed message does not have the chosen tag (key {}, m {})", HARNESS, hex(key), hex(&m));
+    }
+    Some(m)
+}
+
+/// Same as `message_with_final_accumulator` for an arbitrary target residue.
+pub fn message_with_final_accumulator_fe(
+    rng: &mut Rng,
+    key: &[u8; 32],
+    target: Fe,
+    nprefix: usize,
+    last_len: usize,
+) -> Option<Vec<u8>> {
     assert!(last_len == 16 || last_len == 15);
     let r = Fe::r_of_key(key);
     if r.is_zero() {
@@ -224,7 +248,6 @@ pub fn message_with_final_accumulator(
     if r.mul(rinv).canon() != (1, 0) {
         panic!("{} polymath: r * r^-1 != 1", HARNESS);
     }
-    let target = target_fe(off);
     let want = target.mul(rinv); // value of (h_prev + last block incl. its marker bit)
     let marker = Fe::pow2_bytes(last_len);
     let budget = if last_len == 16 { 200 } else { 60_000 };
